@@ -127,16 +127,49 @@ class Engine:
 
     def inline(self, I, name, args, loc):
         if name in I.inline_stack:
+            r = self.fold_wrapper(I, name, args, loc)
+            if r is not None: return r
             raise Undecidable('recursive call to unspecified function %s' % name, loc)
         th = self.thir(name)
+        first = len(I.inline_stack) == 1 and I.fname in self.specs and hasattr(I, 'top_params')
+        if first:
+            if not hasattr(I, 'wrap'): I.wrap = {}
+            I.wrap[name] = (list(args), list(I.top_params))
         I.inline_stack.append(name)
         I.depth += 1
         if I.depth > 12: raise Undecidable('inlining depth', loc)
         try:
-            return I.run_body(th, args)
+            r = I.run_body(th, args)
+            if first: I.wrap_result = getattr(I, 'wrap_result', {}); I.wrap_result[name] = r
+            return r
         finally:
             I.depth -= 1
             I.inline_stack.pop()
+
+    def fold_wrapper(self, I, name, args, loc):
+        """The function under analysis F is a wrapper `F(p..) = g(consts.., p..)` around a shared unspecified helper g (e.g. `and(a, b) =
+        apply(Connective::And, a, b)`).  A recursive call g(consts.., x..) inside g with the *same* constants is the call F(x..): F's own
+        summary is the induction hypothesis.  (explore() checks afterwards that F returned g's result unchanged.)"""
+        w = getattr(I, 'wrap', {}).get(name)
+        sp = self.specs.get(I.fname)
+        if w is None or sp is None: return None
+        first_args, top = w
+        if len(first_args) != len(args): return None
+        def key(v):
+            try: return I.term_of(v)
+            except Exception: return ('?', id(v))
+        new = list(top)
+        covered = set()
+        for a0, a1 in zip(first_args, args):
+            k0 = key(a0)
+            js = [j for j, p in enumerate(top) if key(p) == k0 and j not in covered]
+            is_param = bool(js) and isinstance(a0, (VBdd, VList, VSym, VInt, VData)) and not (isinstance(a0, VInt) and a0.lin.is_const())
+            if is_param:
+                new[js[0]] = a1; covered.add(js[0])
+            else:
+                if key(a1) != k0: return None          # a different constant: not the same specialisation
+        I.events.append(('wrapper_fold', name, loc))
+        return self.apply_spec(I, sp, new, loc)
 
     def apply_spec(self, I, sp, args, loc):
         if sp.name == I.fname:
@@ -216,6 +249,10 @@ class Engine:
                     I.top = True
                     res = I.run_body(th, params)
                     for ev in I.events:
+                        if ev[0] == 'wrapper_fold':
+                            wr = getattr(I, 'wrap_result', {}).get(ev[1])
+                            if not (isinstance(res, VBdd) and isinstance(wr, VBdd) and I.W.rep(res.term) == I.W.rep(wr.term)):
+                                raise Undecidable('a recursive call of the shared helper %s was read as a call of this function, but this function does not return the helper\'s result unchanged' % ev[1], ev[2])
                         if ev[0] == 'fold_induction' and not (isinstance(res, VBdd) and I.W.rep(res.term) == I.W.rep(ev[1])):
                             raise Undecidable('a fold over a list parameter was given its meaning by induction, but it is not what the function returns', ev[2])
                 except Diverge as d:
